@@ -234,6 +234,13 @@ func compare(lc *resolve.LocalClient, m *model) (string, string) {
 	for _, p := range allPkgs {
 		for _, v := range append(append([]string(nil), versionPool[m.sysName]...), "9.9.9") {
 			vk := vkey(m.sys, p, v)
+			// a key of another version type was never added, whatever was added
+			// under the same package and version string
+			other := vk
+			other.VersionType = resolve.Requirement
+			if ov, oerr := lc.Version(ctx, other); oerr == nil || !errors.Is(oerr, resolve.ErrNotFound) {
+				return fmt.Sprintf("Version(%s@%s as a Requirement key) = %v, %v though no such key was ever added", p, v, ov.VersionKey, oerr), "ErrNotFound"
+			}
 			got, err := lc.Version(ctx, vk)
 			reqs, rerr := lc.Requirements(ctx, vk)
 			e, ok := m.versions[p][v]
